@@ -34,7 +34,7 @@ def main():
         "setup_cmd": "./tools/setup.sh",
         "hooks": {
             "guard": "ethercrab_verif",
-            "enable": "RUSTFLAGS='--cfg ethercrab_verif [--cfg ethercrab_verif_h1]' ETHERCRAB_VERIF_DIR=/verif/kani/harness cargo kani (package /verif/kani, lib path /repo/src/lib.rs); sub-switches ethercrab_verif_h1 / ethercrab_verif_yield=\"<site>\" only together with the guard",
+            "enable": "RUSTFLAGS='--cfg ethercrab_verif [--cfg ethercrab_verif_h1]' ETHERCRAB_VERIF_DIR=/verif/kani/harness cargo kani (package /verif/kani, lib path /repo/src/lib.rs); sub-switches --cfg ethercrab_verif_h1 (scripted device behind MainDevice::single_pdu) and --cfg ethercrab_verif_yield=\"on\" (pre-emption points) only together with the guard",
             "baseline_off_cmd": "cd /repo && RUSTUP_TOOLCHAIN=1.88.0 cargo test --workspace --no-fail-fast --offline",
             "source_commits": hook_commits,
             "add_only": True,
